@@ -41,7 +41,7 @@ TB = 2048                                   # threshold of the boundary world
 THR = {"t0": 0, "t1": 1, "t1f": 1, "t1x": 1, "tb": TB}
 
 # payload class -> concrete shape.  Sizes are exact per class (the model needs the allocator's charge), content is seeded.
-ROWS = {"o_s": 1, "o_b": TB // 8 - 1, "o_e": TB // 8, "o_m": 700, "o_0": 0, "o_L": 40000, "o_d": 2500, "o_z": 5,
+ROWS = {"o_s": 1, "o_b": TB // 8 - 1, "o_e": TB // 8, "o_m": 600, "o_0": 0, "o_L": 40000, "o_d": 2500, "o_z": 5,
         "i_s": 1, "i_m": 600, "i_L": 40000, "i_w": 600, "i_d": 2300}
 RLEN = {"r_s": 12, "r_b": TB - 1 - 4, "r_e": TB - 4, "r_m": 6000, "r_L": 300000}
 PADLEN = {"-": 0, "q_s": 10, "q_m": 3000}
@@ -74,13 +74,18 @@ def _insum(inp: AnnotatedBatch | None) -> int:
 
 def _emit(kind: str, rows: int, tag: int, k: int, inp, out: OutputCollector) -> None:
     s = _insum(inp)
-    if kind == "plain":
+    md = {"seq": f"{tag}/{k}", "insum": str(s)}          # application metadata travels with the batch
+    if kind == "plain" and inp is not None and inp.batch.num_rows == rows and rows > 1:
+        # pass-through service: the output batch shares the input batch's buffers (zero-copy when the input came
+        # through shm), so the input region must stay untouched until the output has been written
+        out.emit_arrays([inp.batch.column(0)], metadata=md)
+    elif kind == "plain":
         base = (tag * 1000 + k) * 1000000 + s * 1000
-        out.emit_arrays([pa.array([base + i for i in range(rows)], type=pa.int64())])
+        out.emit_arrays([pa.array([base + i for i in range(rows)], type=pa.int64())], metadata=md)
     elif kind == "dict":
-        out.emit_arrays([_dict_array(rows, tag, k + s)])
+        out.emit_arrays([_dict_array(rows, tag, k + s)], metadata=md)
     else:
-        out.emit(pa.RecordBatch.from_struct_array(pa.array([{}] * rows, pa.struct([]))))
+        out.emit(pa.RecordBatch.from_struct_array(pa.array([{}] * rows, pa.struct([]))), metadata=md)
 
 
 @dataclass
@@ -362,7 +367,9 @@ def run_history(script: list[dict], cap: int, world: str, mode: str, seed: int, 
     ev: list[dict] = []          # events for ShmXferTrace
     calls: list[dict] = []       # after every completed call / idle release: nlive, nheld, tab
     heldchk: list[dict] = []     # digest at delivery vs digest when released / at the end
-    errs: list[str] = []
+    errs: list[str] = []         # harness-level notes (never a clause by themselves)
+    relerrs: list[str] = []      # release() raised: the region the batch lived in could not be given back
+    anon: list[dict] = []        # held batches whose region offset could not be determined
     held: dict[int, dict] = {}   # model offset -> {ab, dig, call}
     state = {"boom": False, "nlog": 0}
     callno = 0
@@ -379,13 +386,13 @@ def run_history(script: list[dict], cap: int, world: str, mode: str, seed: int, 
         return 0 if seg is None else seg.allocator.num_allocs
 
     def boundary(desc):
-        calls.append({"desc": desc, "nlive": nlive(), "nheld": len(held), "tab": tab()})
+        calls.append({"desc": desc, "nlive": nlive(), "nheld": len(held) + len(anon), "tab": tab()})
 
     def release(ab, what):
         try:
             ab.release()
         except Exception as e:  # noqa: BLE001
-            errs.append(f"{what}: {type(e).__name__}: {e}")
+            relerrs.append(f"{what}: {type(e).__name__}: {e}")
 
     def drop_held(moff):
         h = held.pop(moff)
@@ -463,8 +470,10 @@ def run_history(script: list[dict], cap: int, world: str, mode: str, seed: int, 
                             off = region_offset(ab)
                             if off is None:
                                 errs.append("harness: region offset of a delivered batch not found")
-                                keep = False
-                        if keep:
+                                anon.append({"ab": ab, "dig": dig})     # still held (and counted), just not addressable
+                        if keep and off is None:
+                            keep = False
+                        elif keep:
                             held[off - HEADER_SIZE] = {"ab": ab, "dig": dig, "call": callno}
                             mine.append(off - HEADER_SIZE)
                         else:
@@ -520,17 +529,23 @@ def run_history(script: list[dict], cap: int, world: str, mode: str, seed: int, 
                     ev.append({"e": "ReleaseHeld", "off": op["off"], "tab": tab()})
                     boundary({"k": "release", "fail": "-"})
             # the history is over: whatever the client still holds must still read as delivered
-            for moff in sorted(held):
-                heldchk.append({"at": held[moff]["dig"], "end": batch_digest(held[moff]["ab"])})
+            for h in [held[moff] for moff in sorted(held)] + anon:
+                heldchk.append({"at": h["dig"], "end": batch_digest(h["ab"])})
             final_live, final_held = nlive(), len(held)
             held.clear()
             sess = None
-    except Exception as e:  # noqa: BLE001 - anything else the client let escape
+    except Exception as e:  # noqa: BLE001 - anything else the client let escape: part of the delivered history
         errs.append(f"history aborted: {type(e).__name__}: {e}")
+        obs.append(f"abort:{type(e).__name__}")
         final_live, final_held = -1, -1
+    anon.clear()
     end = w.close()
-    return {"obs": obs, "ev": ev, "calls": calls, "heldchk": heldchk, "errs": errs, "cap": cap, "world": world,
-            "mode": mode, "final": [final_live, final_held], **end}
+    if end["server_died"]:
+        obs.append("server:died")
+    if end["server_stuck"]:
+        obs.append("server:stuck")
+    return {"obs": obs, "ev": ev, "calls": calls, "heldchk": heldchk, "errs": errs, "relerrs": relerrs, "cap": cap,
+            "world": world, "mode": mode, "final": [final_live, final_held], **end}
 
 
 # ------------------------------------------------------------------------------------------------ calibration
